@@ -6,7 +6,7 @@ LEVEL = "proof"
 
 
 def components():
-    return [comps.XmlEsc(), comps_json.JsonEsc(), comps_json.JsonStr(), comps_doc.DocModel()]
+    return [comps.XmlEsc(), comps_json.JsonEsc(), comps_json.JsonStr(), comps_doc.DocModel(), comps_doc.QnTagModel()]
 
 
 def oracles_():
@@ -43,8 +43,14 @@ MANIFEST = {
             "do not need one prefix for two namespaces, no prefix is defined twice in the tag and every module reference of "
             "the node value and the metadata values, and every metadata attribute prefix, resolves in the scope of the element "
             "to the right namespace; C12_xml_value_prefixes_shared_refuted = listed finding xml-same-prefix-value-clash; "
-            "regression Examples for the shapes of C12-3 and C12-8. PARTIAL: XmlQn.v is a start-tag model that is not "
-            "extracted; its tie to the code is the oracle QNamesX only. C12_json_doc_std / _sel / _checked (tabs_okb, parents_ltb, Canon, JDocN utf8_nonul; the rendering alone: "
+            "regression Examples in XmlQn.v for the shapes of the seeded changes C12-3 and C12-8 "
+            "(qn_value_prefix_redefined, qn_generated_prefix_avoids_reserved). Tie (T2 QnTagModel, extracted "
+            "XmlQn.open_tag): for generated containers and leaves of the value-type module family (own prefixes distinct / "
+            "shared / equal to a generated prefix; metadata and node values of identityref, instance-identifier, union and "
+            "plain types, clash cases included) what libyang prints in the two nested start tags after the element name - "
+            "namespace definitions, metadata attributes with prefixes and values - is byte-identical to the model's. The "
+            "text of the NODE value (element content) with its prefixes is not part of that comparison (QNamesX checks its "
+            "meaning with expat). C12_json_doc_std / _sel / _checked (tabs_okb, parents_ltb, Canon, JDocN utf8_nonul; the rendering alone: "
             "C12_json_rendering_std): an RFC 8259 reader (grammar of "
             "sections 2-7 + StdText strings) applied to json_print (the transcription of printer_json.c with its state) for "
             "EVERY node selection recovers the RFC 7951 value of the selected part of the forest (qualifiers, arrays, string / "
@@ -60,7 +66,9 @@ MANIFEST = {
             "siblings from the middle of a run (JSON, XML): python json / expat must read it and a top-level node must parse "
             "back to itself (the former finding print-json-single-list-instance-open-array is fixed by 6dea40e). Fixed: xml-value-ns-redeclared (a prefix defined twice in one start tag; e9b7253). Listed: "
             "xml-same-prefix-value-clash (values are printed with the modules' own prefixes; open).",
-    "note": "Modelled C: lyxml_dump_text, json_print_string (+ lexers), xml_print_data and json_print_data on the Tree subset "
+    "note": "Modelled C: lyxml_dump_text, json_print_string (+ lexers), xml_print_node_open / xml_print_meta / xml_print_ns "
+            "/ xml_prefix_reserved for prefixed values (XmlQn.v, start tags only), xml_print_data and json_print_data on "
+            "the Tree subset "
             "(one data module, shrink mode, no anydata / opaque nodes / unions / tagged with-defaults modes). Outside that subset the "
             "document-level structure is only checked by the expat/json oracles on generated instances, which is testing. Since "
             "2c539f8 (matching_node tells namespaces apart; the former assertion failure) WellFormedX prints opaque nodes of "
